@@ -519,16 +519,20 @@ pub fn run(ctx: &Ctx, which: &str) -> ! {
         run_spec(&spec, if thorough { 2 } else { 1 }, false, &mut tot, &mut violations, &mut sample);
     }
     for spec in late_and_leftover_systems() {
+        // (the pid-named leftovers are C10's business; C03 runs them only in the thorough tier)
+        if which == "C03" && !thorough && spec.name.contains("leftover") {
+            continue;
+        }
         run_spec(&spec, 2, false, &mut tot, &mut violations, &mut sample);
     }
-    for spec in alias_systems() {
-        run_spec(&spec, 2, false, &mut tot, &mut violations, &mut sample);
+    for (i, spec) in alias_systems().into_iter().enumerate() {
+        run_spec(&spec, if thorough || i == 0 { 2 } else { 1 }, false, &mut tot, &mut violations, &mut sample);
     }
     for spec in occupied_systems() {
         run_spec(&spec, 1, which == "C10", &mut tot, &mut violations, &mut sample);
     }
     // three servers (a lock holder, a waiter queued behind it, and a late arrival) at bound 2
-    for spec in triple_systems().into_iter().take(if thorough { 4 } else if which == "C03" { 1 } else { 0 }) {
+    for spec in triple_systems().into_iter().take(if thorough { 4 } else if which == "C03" && std::env::var("VH_NO_TRIPLE").is_err() { 1 } else { 0 }) {
         run_spec(&spec, 2, false, &mut tot, &mut violations, &mut sample);
     }
     if thorough {
